@@ -28,11 +28,11 @@ inline size_t gen_len(vf::Tape& t, size_t cap) {
 }
 
 struct ContentInfo {
-    size_t size = 0; unsigned ops = 0, copies = 0, farcopies = 0, lits = 0, runs = 0;
+    size_t size = 0; unsigned ops = 0, copies = 0, farcopies = 0, lits = 0, runs = 0, biglits = 0;
     int size_class = 0;
     std::string summary() const {
-        char b[160];
-        snprintf(b, sizeof b, "content{size=%zu class=%d ops=%u lit=%u run=%u copy=%u far=%u}", size, size_class, ops, lits, runs, copies, farcopies);
+        char b[200];
+        snprintf(b, sizeof b, "content{size=%zu class=%d ops=%u lit=%u run=%u copy=%u far=%u biglit=%u}", size, size_class, ops, lits, runs, copies, farcopies, biglits);
         return b;
     }
 };
@@ -77,7 +77,7 @@ inline std::vector<uint8_t> gen_content_sized(vf::Tape& t, size_t target, Conten
             for (size_t i = 0; i < room; i++) out.push_back((uint8_t)('a' + ((i / per) + (x.s & 3)) % 13));
             break;
         }
-        switch (t.weighted({4, 2, 5, 2, 2, 1})) {
+        switch (t.weighted({4, 2, 5, 2, 2, 1, 1})) {
             case 0: {  // LIT over an alphabet
                 size_t len = gen_len(t, room);
                 unsigned alpha = (unsigned)t.pick<unsigned>({2, 4, 16, 64, 256, 1, 3, 200});
@@ -139,6 +139,14 @@ inline std::vector<uint8_t> gen_content_sized(vf::Tape& t, size_t target, Conten
                 size_t from = out.size() - dist;
                 for (size_t i = 0; i < len; i++) out.push_back(out[from + i]);
                 ci.farcopies++; ci.copies++;
+                break;
+            }
+            case 6: {  // BIGLIT: > 64 KiB of match-free but entropy-compressible literals (split literal buffer, 4-stream Huffman)
+                size_t len = std::min(room, (size_t)t.range(65537, 131072));
+                unsigned alpha = (unsigned)t.pick<unsigned>({96, 128, 200, 17, 256});
+                Xs x(t.raw() + 3);
+                for (size_t i = 0; i < len; i++) { uint32_t r = x.next(); out.push_back((uint8_t)(32 + (((r & 0xff) * ((r >> 8) & 0xff)) >> 8) % alpha)); }
+                ci.lits++; ci.biglits++;
                 break;
             }
             default: {  // ZERO pages
